@@ -12,10 +12,13 @@ RULE = ("cases: exhaustive pairs on the integer lattices {-2..2}^3 / {-1,0,1}^4,
         "dyadic and float configurations, points at infinity, all arities/kinds, collections of shapes (1,),(3,),(2,2),(1,3),(5,),(2,1), "
         "round trips, public entry points, plus every internal join/meet of the repository's tests. A judged call is non-trivial "
         "and distinct by the digest of (monitor, operand arrays); every judged join/meet position is compared with the exact "
-        "rational span/intersection.")
+        "rational span/intersection."
+        " Also judged: the public entry points (join / meet functions and the join / meet methods) with the same contract as the internal dispatcher, and histories on 3D line objects (used in a meet, then transformed, copied or overwritten in place, then used again).")
 SHARDS = (8, 16)
 REQUIRED = ["jm.result", "contains", "roundtrip"]
-ASSUMPTIONS = ["numpy einsum/linalg are correct", "Fraction arithmetic is exact", "wrapping a callable does not change its behaviour"]
+ASSUMPTIONS = ["numpy einsum/linalg are correct", "Fraction arithmetic is exact", "wrapping a callable does not change its behaviour",
+               "integer coordinates are kept so small that the n-fold products of the determinant expansions fit into int64 (the library computes integer joins in int64 without overflow protection)",
+               "representatives of magnitude below 1e-5 or above 1e6 are not claimed (absolute tolerance 1e-8 by design)"]
 EXHAUSTIVE = {"quick": [], "thorough": ["all 15376 ordered pairs of {-2..2}^3 as 2D points (join) and as 2D lines (meet)",
                                           "all 6400 ordered pairs of {-1,0,1}^4 as 3D points (join) and planes (meet)"]}
 TOL = 1e-9
